@@ -33,7 +33,9 @@ VALS = [0, 1, -1, 5, 2 ** 31, -2 ** 31, 2 ** 63 - 1, -2 ** 63,
 NAMEFORMS = [(None, "q1"), ("s", "q1"), (None, '"Q1"'), ('"S"', '"Q1"'), ("s", '"Q1"'), ('"S"', "q1"), (None, "`q1`"), ("`s`", "`q1`"), (None, "[q1]"),
              ("[s]", "[q1]"), ("S", "Q1"), ("s_1", "q_1"),
              # names that begin with a statement-level word (only as a prefix)
-             ("settings", "dropped_rows_seq"), ("created", "set_seq"), (None, "alter_ids"), ("gone", "used_seq")]
+             ("settings", "dropped_rows_seq"), ("created", "set_seq"), (None, "alter_ids"), ("gone", "used_seq"),
+             # schema-qualified names spelled like the sequence option keywords
+             ("sales", "order"), ("app", "cache"), ("public", "start"), ("dev", "no"), ("x", "increment"), ("x", "minvalue")]
 TAB_BEFORE = "CREATE TABLE tb (increment int, start int, cache int DEFAULT 3);"
 TAB_AFTER = "CREATE TABLE ta (cache int, minvalue int, maxvalue int, no int, noorder int);"
 SEQ2 = "CREATE SEQUENCE s.q2 START 7;"
